@@ -922,6 +922,79 @@ fn exhaustive(out: &mut Out, cells: &[Vec<f64>], maxlen: usize, epss: &[f64], mi
 }
 
 // ------------------------------------------------------------------------------------------
+// ------------------------------------------------------------------------------------------
+// api_trait_twin: fit / predict through `smartcore::api::{UnsupervisedEstimator, Predictor}` give exactly
+// what the inherent methods give (training matrix and query rows, model fitted either way, both backends)
+// ------------------------------------------------------------------------------------------
+fn twin_g<D: Distance<Vec<f64>, f64> + Serialize + Clone>(d: D, case: &Case, cover: bool) -> Option<twin::Diff> {
+    type DM = smartcore::linalg::naive::dense_matrix::DenseMatrix<f64>;
+    let m = dense(&case.x);
+    let q = dense(&case.q);
+    let p = DBSCANParameters::default()
+        .with_distance(d)
+        .with_eps(case.eps)
+        .with_min_samples(case.minpts)
+        .with_algorithm(if cover { KNNAlgorithmName::CoverTree } else { KNNAlgorithmName::LinearSearch });
+    let probes = [("the training matrix", &m), ("the query rows", &q)];
+    twin::check(
+        "UnsupervisedEstimator",
+        "Predictor",
+        "predict",
+        || twin::fit_unsup::<DBSCAN<f64, D>, _, _>(&m, p.clone()),
+        || DBSCAN::<f64, D>::fit(&m, p.clone()),
+        |e: &DBSCAN<f64, D>, z: &DM| twin::predict(e, z),
+        |e: &DBSCAN<f64, D>, z: &DM| e.predict(z),
+        &probes,
+        |e: &DBSCAN<f64, D>| serde_json::to_string(e).unwrap_or_default(),
+        true,
+    )
+}
+fn twin_case(case: &Case) -> Option<(bool, twin::Diff)> {
+    if case.x.is_empty() || case.x[0].is_empty() || case.q.is_empty() {
+        return None;
+    }
+    for cover in [false, true] {
+        if let Some(d) = with_metric!(case.met, twin_g(case, cover)) {
+            return Some((cover, d));
+        }
+    }
+    None
+}
+fn check_twin(out: &mut Out, case: &Case, family: &str) {
+    out.eval(case.key() ^ 0x7717, case.x.len() >= 3);
+    out.count(&format!("twin:{}:{}", family, case.met.name()));
+    if twin_case(case).is_none() {
+        return;
+    }
+    // shrink: fewer query rows, fewer points
+    let mut cur = case.clone();
+    let mut progress = true;
+    while progress {
+        progress = false;
+        let mut i = 0;
+        while cur.q.len() > 1 && i < cur.q.len() {
+            let mut t = cur.clone();
+            t.q.remove(i);
+            if twin_case(&t).is_some() { cur = t; progress = true; } else { i += 1; }
+        }
+        let mut i = 0;
+        while cur.x.len() > 1 && i < cur.x.len() {
+            let mut t = cur.clone();
+            t.x.remove(i);
+            if twin_case(&t).is_some() { cur = t; progress = true; } else { i += 1; }
+        }
+    }
+    if let Some((cover, d)) = twin_case(&cur) {
+        let mut w = cur.json();
+        w["entry"] = json!("twin");
+        w["oracle"] = json!(twin::ORACLE);
+        w["algorithm"] = json!(if cover { "cover_tree" } else { "linear_search" });
+        w["differing_call"] = json!(d.call);
+        out.count(&format!("twin:failing:{}", "DBSCAN"));
+        out.fail(twin::ORACLE, &format!("DBSCAN ({}): {}: {}", if cover { "cover tree" } else { "linear search" }, d.call, d.what), w);
+    }
+}
+
 fn replay(path: &str) -> i32 {
     let v = read_replay(path);
     let inp = if v.get("input").is_some() { v["input"].clone() } else { v.clone() };
@@ -930,7 +1003,15 @@ fn replay(path: &str) -> i32 {
         eprintln!("replay file has no data");
         return 2;
     }
-    let failed = if case.minpts == 0 {
+    let failed = if inp["entry"].as_str() == Some("twin") {
+        match twin_case(&case) {
+            Some((cover, d)) => {
+                println!("  {}: DBSCAN ({}): {}: {}", twin::ORACLE, if cover { "cover tree" } else { "linear search" }, d.call, d.what);
+                true
+            }
+            None => false,
+        }
+    } else if case.minpts == 0 {
         !matches!(impl_run(&case, false), Ok(None))
     } else {
         let e = eval_case(&case);
@@ -957,7 +1038,7 @@ fn main() {
     let mut rng = Rng::new(a.seed);
     let mut out = Out::new(
         "C13",
-        "search case = (points, eps, min_samples, metric, query rows), evaluated with both backends; non-trivial: at least one cluster and (a border point, a noise point or >= 2 clusters); distinct by hash of (data, eps, min_samples, metric); cases with a pairwise distance within 1e-9 relative of eps but not equal to it are excluded and counted",
+        "search case = (points, eps, min_samples, metric, query rows), evaluated with both backends; non-trivial: at least one cluster and (a border point, a noise point or >= 2 clusters); distinct by hash of (data, eps, min_samples, metric); cases with a pairwise distance within 1e-9 relative of eps but not equal to it are excluded and counted. api-trait twin case = a search case fitted and queried through smartcore::api::{UnsupervisedEstimator, Predictor} and through the inherent methods (both backends); all results must coincide bit for bit",
     );
 
     // ---- corpus: D9 (predict with no training point within eps returned cluster 0) and the crate's own test ----
@@ -1058,6 +1139,14 @@ fn main() {
             out.sample(json!({"n": case.x.len(), "dim": case.x[0].len(), "eps": case.eps, "min_samples": case.minpts,
                               "metric": case.met.name(), "family": family, "first_rows": case.x.iter().take(4).collect::<Vec<_>>()}));
         }
+    }
+    // ---- api-trait twins (last: the streams of the sections above are unchanged) ----
+    for i in 0..(if a.thorough { 600 } else { 80 }) {
+        let (mut case, family) = gen_case(&mut rng, 40, 5);
+        if i % 25 == 24 {
+            case.minpts = 0; // parameter validation through both entry points
+        }
+        check_twin(&mut out, &case, family);
     }
     out.finish(&a.out);
 }
